@@ -154,7 +154,7 @@ impl Program {
                 "inner_array": a.inner.as_ref().map(|(c, p)| json!({"count": c, "pitch_xy": [p.0, p.1]})), "reflect_horiz": a.rh, "reflect_vert": a.rv, "loc": [a.at.0, a.at.1]}))
             .collect();
         let cells: Vec<Value> = self.cells.iter().enumerate().map(|(i, c)| json!({"name": format!("c{i}"), "outline_rect": [c.0, c.1]})).collect();
-        json!({"cells": cells, "instances": insts, "arrays": arrays, "parent_listed_first": self.parent_first, "two_parent_cells": self.two_parents, "stepped_outlines_same_bounding_box": self.stepped})
+        json!({"cells": cells, "instances": insts, "arrays": arrays, "parent_listed_first": self.parent_first, "two_parent_cells_second_moved_by_31_-17": self.two_parents, "stepped_outlines_same_bounding_box": self.stepped})
     }
 }
 
@@ -185,6 +185,16 @@ fn side_of(s: S) -> Side {
         S::Right => Side::Right,
         S::Bottom => Side::Bottom,
         S::Top => Side::Top,
+    }
+}
+
+/// the second parent cell holds the same program moved by this offset (same instance names, other places)
+pub const PARENT1_SHIFT: (i64, i64) = (31, -17);
+fn shift_of(pi: usize) -> (i64, i64) {
+    if pi == 1 {
+        PARENT1_SHIFT
+    } else {
+        (0, 0)
     }
 }
 
@@ -254,7 +264,7 @@ pub fn run_program(p: &Program, listing: &[usize]) -> Result<Vec<ParentSeen>, St
             .collect();
         for (i, d) in p.insts.iter().enumerate() {
             let loc = match &d.loc {
-                Loc::Abs(x, y) => Place::Abs(Xy::from((*x as isize, *y as isize))),
+                Loc::Abs(x, y) => Place::Abs(Xy::from(((*x + shift_of(pi).0) as isize, (*y + shift_of(pi).1) as isize))),
                 Loc::Rel { to, side, align, sep } => {
                     let s = match sep {
                         Sep::None => Separation::default(),
@@ -295,7 +305,7 @@ pub fn run_program(p: &Program, listing: &[usize]) -> Result<Vec<ParentSeen>, St
             let ai = ArrayInstance {
                 name: format!("a{i}"),
                 array: Ptr::new(arr),
-                loc: Place::Abs(Xy::from((a.at.0 as isize, a.at.1 as isize))),
+                loc: Place::Abs(Xy::from(((a.at.0 + shift_of(pi).0) as isize, (a.at.1 + shift_of(pi).1) as isize))),
                 reflect_vert: a.rv,
                 reflect_horiz: a.rh,
             };
@@ -539,7 +549,8 @@ fn sep_value(p: &Program, side: S, sep: &Sep) -> i64 {
 }
 
 /// Check one observed parent against the program. Returns the locations by instance name.
-fn judge_parent(p: &Program, seen: &ParentSeen) -> Result<BTreeMap<String, (i64, i64)>, (String, String)> {
+/// `sh`: the offset by which this parent's absolute placements were moved; returned locations are net of it
+fn judge_parent(p: &Program, seen: &ParentSeen, sh: (i64, i64)) -> Result<BTreeMap<String, (i64, i64)>, (String, String)> {
     let bad = |sig: &str, what: String| Err((sig.to_string(), what));
     if seen.places_left != 0 {
         return bad("places-left", format!("{} placeable(s) left unprocessed in the layout", seen.places_left));
@@ -556,7 +567,7 @@ fn judge_parent(p: &Program, seen: &ParentSeen) -> Result<BTreeMap<String, (i64,
             if by_name.insert(s.name.clone(), s).is_some() {
                 return bad("instance-duplicated", format!("instance {} appears twice after placement", s.name));
             }
-            locs.insert(s.name.clone(), l);
+            locs.insert(s.name.clone(), (l.0 - sh.0, l.1 - sh.1));
         } else {
             others.push(s);
         }
@@ -581,8 +592,8 @@ fn judge_parent(p: &Program, seen: &ParentSeen) -> Result<BTreeMap<String, (i64,
         }
         match &d.loc {
             Loc::Abs(x, y) => {
-                if loc != (*x, *y) {
-                    return bad("absolute-moved", format!("absolutely placed {name} moved from ({x},{y}) to {loc:?}"));
+                if loc != (*x + sh.0, *y + sh.1) {
+                    return bad("absolute-moved", format!("absolutely placed {name} moved from ({},{}) to {loc:?}", *x + sh.0, *y + sh.1));
                 }
             }
             Loc::Rel { to, side, align, sep } => {
@@ -605,7 +616,7 @@ fn judge_parent(p: &Program, seen: &ParentSeen) -> Result<BTreeMap<String, (i64,
     for a in &p.arrays {
         want.extend(expected_children(p, a));
     }
-    let mut got: Vec<(String, (i64, i64), bool, bool)> = others.iter().map(|s| (s.cell.clone(), s.loc.unwrap(), s.rh, s.rv)).collect();
+    let mut got: Vec<(String, (i64, i64), bool, bool)> = others.iter().map(|s| (s.cell.clone(), (s.loc.unwrap().0 - sh.0, s.loc.unwrap().1 - sh.1), s.rh, s.rv)).collect();
     want.sort();
     got.sort();
     if want != got {
@@ -667,7 +678,7 @@ fn check_program(p: &Program, listings: &[Vec<usize>], key: &str, cx: &mut Cx) {
                 }
                 outcome = "ok";
                 for (pi, seen) in parents.iter().enumerate() {
-                    match judge_parent(p, seen) {
+                    match judge_parent(p, seen, shift_of(pi)) {
                         Err((sig, what)) => {
                             cx.fail(key, &sig, None, || format!("parent{pi}: {what}"), detail);
                             cx.outcome("mismatch");
@@ -867,7 +878,8 @@ impl CaseDriver for Graph {
             insts.push(InstDef { cell, rh: r.0, rv: r.1, loc });
         }
         let stepped = c.cost(2, "stepped-outlines") == 1;
-        Program { cells: GRAPH_CELLS.to_vec(), insts, arrays: vec![], parent_first: false, two_parents: false, stepped }
+        let two_parents = c.cost(2, "two-parents") == 1;
+        Program { cells: GRAPH_CELLS.to_vec(), insts, arrays: vec![], parent_first: false, two_parents, stepped }
     }
     fn check(&self, p: &Program, key: &str, cx: &mut Cx) {
         let nrel = p.insts.iter().filter(|d| matches!(d.loc, Loc::Rel { .. })).count();
@@ -928,12 +940,13 @@ impl CaseDriver for Arr {
     }
     fn describe(&self, t: Tier) -> Describe {
         describe_with(format!(
-            "array instances at an absolute origin ((9,13) / (-5,-8)): count 1..={} x pitch {{(4,0),(0,5),(4,-3),(-6,2)}} x 4 reflections x unit {{cell, inner array of count 1..=3 x 4 pitches}} x with/without two ordinary instances (one absolute, one placed relative to it) in the same layout, full product. State = one program; non-trivial = more than one child.",
+            "array instances at an absolute origin ((9,13) / (-5,-8) / (0,0) / (0,20) / (30,0)): count 1..={} x pitch {{(4,0),(0,5),(4,-3),(-6,2)}} x 4 reflections x unit {{cell, inner array of count 1..=3 x 4 pitches}} x with/without two ordinary instances (one absolute, one placed relative to it) in the same layout, full product, each also with stepped outlines or with a second, moved parent cell holding the same program. State = one program; non-trivial = more than one child.",
             t.pick(3, 4)
         ))
     }
     fn bound(&self, _t: Tier) -> usize {
-        0
+        // the two costed options (stepped outlines, a second moved parent cell) one at a time
+        1
     }
     fn gen(&self, t: Tier, c: &mut Chooser) -> Program {
         let count = 1 + c.free(t.pick(3, 4), "count");
@@ -941,7 +954,7 @@ impl CaseDriver for Arr {
         let r = REFL[c.free(4, "refl")];
         let nested = c.free(13, "unit");
         let inner = if nested == 0 { None } else { Some((1 + (nested - 1) / 4, PITCHES[(nested - 1) % 4])) };
-        let at = [(9, 13), (-5, -8)][c.free(2, "origin")];
+        let at = [(9, 13), (-5, -8), (0, 0), (0, 20), (30, 0)][c.free(5, "origin")];
         let with_insts = c.flag("with-instances");
         let cell = c.free(2, "cell");
         let insts = if with_insts {
@@ -953,7 +966,8 @@ impl CaseDriver for Arr {
             vec![]
         };
         let stepped = c.cost(2, "stepped-outlines") == 1;
-        Program { cells: GRAPH_CELLS.to_vec(), insts, arrays: vec![ArrayDef { cell, count, pitch, inner, rh: r.0, rv: r.1, at }], parent_first: false, two_parents: false, stepped }
+        let two_parents = c.cost(2, "two-parents") == 1;
+        Program { cells: GRAPH_CELLS.to_vec(), insts, arrays: vec![ArrayDef { cell, count, pitch, inner, rh: r.0, rv: r.1, at }], parent_first: false, two_parents, stepped }
     }
     fn check(&self, p: &Program, key: &str, cx: &mut Cx) {
         let a = &p.arrays[0];
